@@ -35,6 +35,10 @@ typedef struct carquet_statistics_builder {
     size_t min_len;
     size_t max_len;
 
+    /* A value too long for the buffers above was added: min/max would no
+     * longer bound the data, so none are reported until the next reset */
+    bool bounds_lost;
+
     /* For computing distinct count (simple approximation) */
     /* Full HyperLogLog would be better but more complex */
 } carquet_statistics_builder_t;
@@ -149,6 +153,7 @@ void carquet_statistics_builder_reset(carquet_statistics_builder_t* builder) {
     builder->num_values = 0;
     builder->min_len = 0;
     builder->max_len = 0;
+    builder->bounds_lost = false;
 }
 
 /* ============================================================================
@@ -306,8 +311,10 @@ carquet_status_t carquet_statistics_add_byte_arrays(
         const uint8_t* val = values[i].data;
         size_t val_len = (size_t)values[i].length;
 
-        /* Skip if too large */
+        /* Too large to keep as a bound: it may lie below the minimum or
+         * above the maximum seen so far, so min/max cannot be trusted any more */
         if (val_len > sizeof(builder->min_value)) {
+            builder->bounds_lost = true;
             continue;
         }
 
@@ -377,7 +384,7 @@ carquet_status_t carquet_statistics_build(
     }
 
     /* Min value */
-    if (builder->has_min && builder->min_len > 0) {
+    if (builder->has_min && builder->min_len > 0 && !builder->bounds_lost) {
         if (arena) {
             stats->min_value = carquet_arena_memdup(arena,
                 builder->min_value, builder->min_len);
@@ -395,7 +402,7 @@ carquet_status_t carquet_statistics_build(
     }
 
     /* Max value */
-    if (builder->has_max && builder->max_len > 0) {
+    if (builder->has_max && builder->max_len > 0 && !builder->bounds_lost) {
         if (arena) {
             stats->max_value = carquet_arena_memdup(arena,
                 builder->max_value, builder->max_len);
